@@ -432,6 +432,78 @@ def deferred_in_order(run):
                     nev, how, deferred, turns, want, sync), {"n": nev, "how": how})
 
 
+def same_class_twice_and_two_stacks(run):
+    """(a) The same interfaced layer class at two positions of one stack (plain / in groups, either order convention): the lookup by class
+    answers with the interface of the FIRST occurrence in stack order (bottom first), as the pinned code does, and does so for the stack
+    and for every layer of it.  (b) Stacks built one after the other by the default helpers share no layer object: every layer (and group
+    member) instance belongs to one stack, and an event broadcast in the first stack is seen only by the first stack's layers."""
+    from yowsup.layers import YowLayer, YowLayerInterface, YowLayerEvent, YowParallelLayer
+    from yowsup.stacks import YowStack, YowStackBuilder
+
+    class Twice(YowLayer):
+        def __init__(self):
+            YowLayer.__init__(self)
+            self.interface = YowLayerInterface(self)
+
+    class Other(YowLayer):
+        pass
+    shapes = {"plain,plain": ((Twice, Other, Twice), False), "plain,plain top-first": ((Twice, Other, Twice), True),
+              "plain,group": ((Twice, YowParallelLayer((Other, Twice))), False), "group,plain": ((YowParallelLayer((Twice, Other)), Twice), False),
+              "group,group": ((YowParallelLayer((Other, Twice)), Other, YowParallelLayer((Twice, Other))), False)}
+    for name, (layers, rev) in shapes.items():
+        run.case(("same-class-twice", name))
+        try:
+            st = YowStack(layers, reversed=rev)
+            order = []
+            i = 0
+            while True:
+                try:
+                    l = st.getLayer(i)
+                except IndexError:
+                    break
+                for x in (l.sublayers if isinstance(l, YowParallelLayer) else (l,)):
+                    if isinstance(x, Twice):
+                        order.append(x)
+                i += 1
+            got = st.getLayerInterface(Twice)
+            if len(order) != 2 or got is not order[0].interface:
+                run.violation("interface:by-class:first-occurrence", "stack %s with the class at two positions: getLayerInterface returned %s" % (
+                    name, "the LAST occurrence's interface" if len(order) == 2 and got is order[1].interface else got), {"shape": name})
+        except Exception as e:
+            run.violation("interface:by-class:exception", "stack %s raised %r" % (name, e), {"shape": name})
+    # (b) default stacks are disjoint
+    for how in ("getDefaultStack", "builder"):
+        run.case(("two-default-stacks", how))
+        try:
+            def make():
+                return YowStackBuilder.getDefaultStack(axolotl=True) if how == "getDefaultStack" else YowStackBuilder().pushDefaultLayers().build()
+
+            def objs(st):
+                out, i = [], 0
+                while True:
+                    try:
+                        l = st.getLayer(i)
+                    except IndexError:
+                        return out
+                    out.append(l)
+                    if isinstance(l, YowParallelLayer):
+                        out.extend(l.sublayers)
+                    i += 1
+            s1 = make()
+            o1 = objs(s1)
+            s2 = make()
+            o2 = objs(s2)
+            o1b = objs(s1)
+            shared = [type(x).__name__ for x in o1b if any(x is y for y in o2)]
+            moved = [type(x).__name__ for x, y in zip(o1, o1b) if x is not y] + ([] if len(o1) == len(o1b) else ["layer count changed"])
+            foreign = [type(x).__name__ for x in o1b if getattr(x, "getStack", None) and x.getStack() is not s1]
+            if shared or moved or foreign:
+                run.violation("build:stacks-share-layers", "two stacks from %s: layer objects in both stacks %s; first stack's layers changed by building the second %s; layers of the first stack that answer to another stack %s" % (
+                    how, shared[:4], moved[:4], foreign[:4]), {"how": how})
+        except Exception as e:
+            run.violation("build:two-stacks:exception", "building two default stacks (%s) raised %r" % (how, e), {"how": how})
+
+
 def subclass_event_handlers(run):
     """Event handlers are per class: a layer class and a subclass that adds / overrides handlers may both be instantiated in one
     process, in either order, and each instance sees exactly the events its own class handles."""
@@ -531,6 +603,7 @@ def run():
     interface_lookup_exact(r)
     subclass_event_handlers(r)
     deferred_in_order(r)
+    same_class_twice_and_two_stacks(r)
     return r.finish()
 
 
